@@ -27,7 +27,9 @@ func checkManifestUniqueEntries(r *Run, p *packages.Package) {
 		field string
 	}
 	var loops []loop
-	ast.Inspect(fd.Body, func(x ast.Node) bool {
+	// helpers of the validator — also methods of a local that holds what it remembers between entries — are read in place
+	body := inlineFuncWith(p, fd, 2, true).Body
+	ast.Inspect(body, func(x ast.Node) bool {
 		rs, ok := x.(*ast.RangeStmt)
 		if !ok || rs.Value == nil {
 			return true
@@ -59,7 +61,8 @@ func checkManifestUniqueEntries(r *Run, p *packages.Package) {
 		// seen-set idiom inside the loop body: a map is read with a key derived from elem.<field> and the failing branch
 		// returns, and the same map is written with such a key
 		derived := map[types.Object]bool{}
-		mentions := func(e ast.Expr) bool {
+		var mentions func(e ast.Expr) bool
+		mentions = func(e ast.Expr) bool {
 			found := false
 			ast.Inspect(e, func(y ast.Node) bool {
 				switch t := y.(type) {
@@ -76,60 +79,134 @@ func checkManifestUniqueEntries(r *Run, p *packages.Package) {
 			})
 			return found
 		}
-		for _, st := range l.rs.Body.List {
-			if as, ok := st.(*ast.AssignStmt); ok && len(as.Lhs) == 1 && len(as.Rhs) == 1 && mentions(as.Rhs[0]) {
-				if id, ok := as.Lhs[0].(*ast.Ident); ok {
-					derived[info.ObjectOf(id)] = true
-				}
+		// elemIs: additional objects that stand for the element (a helper's parameter) or for its naming field
+		elemObjs := map[types.Object]bool{l.elem: true}
+		baseMentions := mentions
+		mentions = func(e ast.Expr) bool {
+			if baseMentions(e) {
+				return true
 			}
-		}
-		reads, writes := map[types.Object]bool{}, map[types.Object]bool{}
-		for _, st := range l.rs.Body.List {
-			// only this loop's own level: nested range loops have their own obligation
-			ast.Inspect(st, func(y ast.Node) bool {
-				if inner, ok := y.(*ast.RangeStmt); ok && inner != l.rs {
-					return false
-				}
-				switch t := y.(type) {
-				case *ast.IfStmt:
-					// `if seen[key] { return … }` over a map of bool
-					if ix, ok := ast.Unparen(t.Cond).(*ast.IndexExpr); ok && mentions(ix.Index) {
-						if _, isMap := info.TypeOf(ix.X).Underlying().(*types.Map); isMap {
-							for _, b := range t.Body.List {
-								if _, isRet := b.(*ast.ReturnStmt); isRet {
-									if id, ok := ast.Unparen(ix.X).(*ast.Ident); ok {
-										reads[info.Uses[id]] = true
-									}
-								}
-							}
-						}
-					}
-					if as, ok := t.Init.(*ast.AssignStmt); ok && len(as.Rhs) == 1 {
-						if ix, ok := ast.Unparen(as.Rhs[0]).(*ast.IndexExpr); ok && mentions(ix.Index) {
-							if _, isMap := info.TypeOf(ix.X).Underlying().(*types.Map); isMap {
-								returns := false
-								for _, b := range t.Body.List {
-									if _, isRet := b.(*ast.ReturnStmt); isRet {
-										returns = true
-									}
-								}
-								if id, ok := ast.Unparen(ix.X).(*ast.Ident); ok && returns {
-									reads[info.Uses[id]] = true
-								}
-							}
-						}
-					}
-				case *ast.AssignStmt:
-					for _, lhs := range t.Lhs {
-						if ix, ok := ast.Unparen(lhs).(*ast.IndexExpr); ok && mentions(ix.Index) {
-							if id, ok := ast.Unparen(ix.X).(*ast.Ident); ok {
-								writes[info.Uses[id]] = true
-							}
-						}
+			found := false
+			ast.Inspect(e, func(y ast.Node) bool {
+				if t, ok := y.(*ast.SelectorExpr); ok {
+					if id, ok := ast.Unparen(t.X).(*ast.Ident); ok && elemObjs[info.Uses[id]] && t.Sel.Name == l.field {
+						found = true
 					}
 				}
 				return true
 			})
+			return found
+		}
+		markDerived := func(list []ast.Stmt) {
+			for _, st := range list {
+				if as, ok := st.(*ast.AssignStmt); ok && len(as.Lhs) == 1 && len(as.Rhs) == 1 && mentions(as.Rhs[0]) {
+					if id, ok := as.Lhs[0].(*ast.Ident); ok {
+						derived[info.ObjectOf(id)] = true
+					}
+				}
+			}
+		}
+		markDerived(l.rs.Body.List)
+		// the per-entry checks may live in a helper that is handed the element: its statements are read as the loop's
+		scanLists := [][]ast.Stmt{l.rs.Body.List}
+		decls := FuncDecls(p)
+		for _, st := range l.rs.Body.List {
+			ast.Inspect(st, func(y ast.Node) bool {
+				if inner, ok := y.(*ast.RangeStmt); ok && inner != l.rs {
+					return false
+				}
+				call, ok := y.(*ast.CallExpr)
+				if !ok {
+					return true
+				}
+				fn := calleeOf(info, call)
+				if fn == nil || fn.Pkg() != p.Types {
+					return true
+				}
+				hd := decls[declKeyOf(fn.Origin())]
+				if hd == nil || hd.Body == nil || hd.Type.Params == nil {
+					return true
+				}
+				i := 0
+				handed := false
+				for _, pl := range hd.Type.Params.List {
+					for _, nm := range pl.Names {
+						if i < len(call.Args) {
+							if id, ok := ast.Unparen(call.Args[i]).(*ast.Ident); ok && info.Uses[id] == l.elem {
+								elemObjs[info.Defs[nm]] = true
+								handed = true
+							}
+						}
+						i++
+					}
+				}
+				if handed {
+					markDerived(hd.Body.List)
+					scanLists = append(scanLists, hd.Body.List)
+				}
+				return true
+			})
+		}
+		reads, writes := map[string]bool{}, map[string]bool{}
+		cellText := func(e ast.Expr) (string, bool) {
+			switch t := ast.Unparen(e).(type) {
+			case *ast.Ident:
+				return t.Name, true
+			case *ast.SelectorExpr:
+				if isFieldPath(info, t) {
+					return exprString(r.Fset, t), true
+				}
+			}
+			return "", false
+		}
+		for _, list := range scanLists {
+			for _, st := range list {
+				// only this loop's own level: nested range loops have their own obligation
+				ast.Inspect(st, func(y ast.Node) bool {
+					if inner, ok := y.(*ast.RangeStmt); ok && inner != l.rs {
+						return false
+					}
+					switch t := y.(type) {
+					case *ast.IfStmt:
+						// `if seen[key] { return … }` over a map of bool
+						if ix, ok := ast.Unparen(t.Cond).(*ast.IndexExpr); ok && mentions(ix.Index) {
+							if _, isMap := info.TypeOf(ix.X).Underlying().(*types.Map); isMap {
+								for _, b := range t.Body.List {
+									if _, isRet := b.(*ast.ReturnStmt); isRet {
+										if k, ok := cellText(ix.X); ok {
+											reads[k] = true
+										}
+									}
+								}
+							}
+						}
+						if as, ok := t.Init.(*ast.AssignStmt); ok && len(as.Rhs) == 1 {
+							if ix, ok := ast.Unparen(as.Rhs[0]).(*ast.IndexExpr); ok && mentions(ix.Index) {
+								if _, isMap := info.TypeOf(ix.X).Underlying().(*types.Map); isMap {
+									returns := false
+									for _, b := range t.Body.List {
+										if _, isRet := b.(*ast.ReturnStmt); isRet {
+											returns = true
+										}
+									}
+									if k, ok := cellText(ix.X); ok && returns {
+										reads[k] = true
+									}
+								}
+							}
+						}
+					case *ast.AssignStmt:
+						for _, lhs := range t.Lhs {
+							if ix, ok := ast.Unparen(lhs).(*ast.IndexExpr); ok && mentions(ix.Index) {
+								if k, ok := cellText(ix.X); ok {
+									writes[k] = true
+								}
+							}
+						}
+					}
+					return true
+				})
+			}
 		}
 		unique := false
 		for m := range reads {
@@ -203,6 +280,12 @@ func checkVerificationLoopsTotal(r *Run, p *packages.Package) {
 					return true
 				})
 				construct := funcDeclName(fd) + ":range " + exprString(r.Fset, rs.X)
+				if skip != token.NoPos {
+					if why, ok := skipOnlyForeignElements(r, p, fd, rs, skip); ok {
+						r.Pass(rule, construct, verify.Pos(), "an iteration is skipped only for an element that is not a manifest entry: %s", why)
+						return true
+					}
+				}
 				if skip != token.NoPos {
 					r.Fail(rule, construct, skip, "an iteration of the loop over %s can `continue` before %s is called: the entry it skips is accepted without its digest and size being compared, so a substituted fragment passes validation", exprString(r.Fset, rs.X), exprString(r.Fset, verify.Fun))
 				} else {
@@ -401,4 +484,209 @@ func checksumVerifiers(p *packages.Package) map[*types.Func]bool {
 		}
 	}
 	return out
+}
+
+// skipOnlyForeignElements: the loop ranges over a list of names, fetches the manifest entry of each from a map and
+// skips the names the map does not have. That verifies every entry provided every key of the map is also an element of
+// the list: the expression the map is filled under and an expression appended to the list are the same function of a
+// manifest entry (canonValue).
+func skipOnlyForeignElements(r *Run, p *packages.Package, fd *ast.FuncDecl, rs *ast.RangeStmt, skip token.Pos) (string, bool) {
+	info := p.TypesInfo
+	decls := FuncDecls(p)
+	elem, ok := rs.Value.(*ast.Ident)
+	if !ok {
+		return "", false
+	}
+	listID, ok := ast.Unparen(rs.X).(*ast.Ident)
+	if !ok {
+		return "", false
+	}
+	elemObj, listObj := info.ObjectOf(elem), info.ObjectOf(listID)
+	// the lookup whose miss leads to the continue
+	var mapObj types.Object
+	var okObj types.Object
+	ast.Inspect(rs.Body, func(n ast.Node) bool {
+		as, isAssign := n.(*ast.AssignStmt)
+		if !isAssign || len(as.Lhs) != 2 || len(as.Rhs) != 1 {
+			return true
+		}
+		ix, isIx := ast.Unparen(as.Rhs[0]).(*ast.IndexExpr)
+		if !isIx {
+			return true
+		}
+		kid, isID := ast.Unparen(ix.Index).(*ast.Ident)
+		mid, isMap := ast.Unparen(ix.X).(*ast.Ident)
+		oid, isOK := as.Lhs[1].(*ast.Ident)
+		if isID && isMap && isOK && info.Uses[kid] == elemObj {
+			mapObj, okObj = info.Uses[mid], info.ObjectOf(oid)
+		}
+		return true
+	})
+	if mapObj == nil {
+		return "", false
+	}
+	// the continue is controlled by !ok only
+	var br *ast.BranchStmt
+	ast.Inspect(rs.Body, func(n ast.Node) bool {
+		if b, isBr := n.(*ast.BranchStmt); isBr && b.Pos() == skip {
+			br = b
+		}
+		return br == nil
+	})
+	if br == nil {
+		return "", false
+	}
+	lits := controlConds(rs.Body, br)
+	if len(lits) != 1 {
+		return "", false
+	}
+	negOK := false
+	{
+		e, neg := lits[0].Expr, lits[0].Neg
+		for {
+			u, isNot := ast.Unparen(e).(*ast.UnaryExpr)
+			if !isNot || u.Op != token.NOT {
+				break
+			}
+			e, neg = u.X, !neg
+		}
+		if id, isID := ast.Unparen(e).(*ast.Ident); isID && info.Uses[id] == okObj && neg {
+			negOK = true
+		}
+	}
+	if !negOK {
+		return "", false
+	}
+	// keys the map is filled under
+	var fillKeys []string
+	collectFills := func(in *ast.FuncDecl, m types.Object) {
+		ast.Inspect(in.Body, func(n ast.Node) bool {
+			as, isAssign := n.(*ast.AssignStmt)
+			if !isAssign {
+				return true
+			}
+			for _, l := range as.Lhs {
+				if ix, isIx := ast.Unparen(l).(*ast.IndexExpr); isIx {
+					if id, isID := ast.Unparen(ix.X).(*ast.Ident); isID && info.ObjectOf(id) == m {
+						fillKeys = append(fillKeys, canonValue(info, in, ix.Index))
+					}
+				}
+			}
+			return true
+		})
+	}
+	collectFills(fd, mapObj)
+	// the map may be the result of a helper
+	ast.Inspect(fd.Body, func(n ast.Node) bool {
+		as, isAssign := n.(*ast.AssignStmt)
+		if !isAssign || len(as.Rhs) != 1 {
+			return true
+		}
+		if id, isID := as.Lhs[0].(*ast.Ident); !isID || info.ObjectOf(id) != mapObj {
+			return true
+		}
+		call, isCall := ast.Unparen(as.Rhs[0]).(*ast.CallExpr)
+		if !isCall {
+			return true
+		}
+		fn := calleeOf(info, call)
+		if fn == nil || fn.Pkg() != p.Types {
+			return true
+		}
+		hd := decls[declKeyOf(fn.Origin())]
+		if hd == nil || hd.Body == nil {
+			return true
+		}
+		// the helper's returned map
+		ast.Inspect(hd.Body, func(m ast.Node) bool {
+			if ret, isRet := m.(*ast.ReturnStmt); isRet && len(ret.Results) >= 1 {
+				if rid, isID := ast.Unparen(ret.Results[0]).(*ast.Ident); isID {
+					if o := info.Uses[rid]; o != nil {
+						collectFills(hd, o)
+					}
+				}
+			}
+			return true
+		})
+		return true
+	})
+	if len(fillKeys) == 0 {
+		return "", false
+	}
+	// what the list is made of
+	listElems := map[string]bool{}
+	ast.Inspect(fd.Body, func(n ast.Node) bool {
+		as, isAssign := n.(*ast.AssignStmt)
+		if !isAssign || len(as.Lhs) != 1 || len(as.Rhs) != 1 {
+			return true
+		}
+		if id, isID := as.Lhs[0].(*ast.Ident); !isID || info.ObjectOf(id) != listObj {
+			return true
+		}
+		if call, isCall := ast.Unparen(as.Rhs[0]).(*ast.CallExpr); isCall {
+			if f, isF := ast.Unparen(call.Fun).(*ast.Ident); isF && f.Name == "append" {
+				for _, a := range call.Args[1:] {
+					listElems[canonValue(info, fd, a)] = true
+				}
+			}
+		}
+		return true
+	})
+	// the list may be the result of a helper
+	ast.Inspect(fd.Body, func(n ast.Node) bool {
+		as, isAssign := n.(*ast.AssignStmt)
+		if !isAssign || len(as.Rhs) != 1 || len(as.Lhs) < 1 {
+			return true
+		}
+		if id, isID := as.Lhs[0].(*ast.Ident); !isID || info.ObjectOf(id) != listObj {
+			return true
+		}
+		call, isCall := ast.Unparen(as.Rhs[0]).(*ast.CallExpr)
+		if !isCall {
+			return true
+		}
+		fn := calleeOf(info, call)
+		if fn == nil || fn.Pkg() != p.Types {
+			return true
+		}
+		hd := decls[declKeyOf(fn.Origin())]
+		if hd == nil || hd.Body == nil {
+			return true
+		}
+		returned := map[types.Object]bool{}
+		ast.Inspect(hd.Body, func(m ast.Node) bool {
+			if ret, isRet := m.(*ast.ReturnStmt); isRet && len(ret.Results) >= 1 {
+				if rid, isID := ast.Unparen(ret.Results[0]).(*ast.Ident); isID {
+					returned[info.Uses[rid]] = true
+				}
+			}
+			return true
+		})
+		ast.Inspect(hd.Body, func(m ast.Node) bool {
+			a2, ok := m.(*ast.AssignStmt)
+			if !ok || len(a2.Lhs) != 1 || len(a2.Rhs) != 1 {
+				return true
+			}
+			if id, isID := a2.Lhs[0].(*ast.Ident); !isID || !returned[info.ObjectOf(id)] {
+				return true
+			}
+			if c2, isCall := ast.Unparen(a2.Rhs[0]).(*ast.CallExpr); isCall {
+				if f, isF := ast.Unparen(c2.Fun).(*ast.Ident); isF && f.Name == "append" {
+					for _, a := range c2.Args[1:] {
+						for _, c := range canonValues(info, hd, a) {
+							listElems[c] = true
+						}
+					}
+				}
+			}
+			return true
+		})
+		return true
+	})
+	for _, k := range fillKeys {
+		if !listElems[k] {
+			return "", false
+		}
+	}
+	return "the map is filled under " + fillKeys[0] + ", which is also what the list is made of", true
 }
